@@ -67,6 +67,19 @@ ASSUMPTIONS = [
     'keeps `_nonzero`/`_index` (VLE) and `_nonzero`/`_index`/`_chemical` (SLE) per object, and `vle.setup` / `sle.setup` '
     'compare the reuse decision and the index with the real object',
     'for a stream that also has s/L rows, a VLE call only owns the l and g rows; the placement clauses are evaluated on those',
+    'the placement clauses are judged against the DECLARED phase locks (Chemical(..., phase=)), not against the '
+    '_light_indices/_heavy_indices the code compiled (a difference is itself reported: misclassified-phase-lock); the model is '
+    'given the compiled lists because it mirrors the code',
+    'SLE._setup is modelled with the repair of fixes_proposed/C03-3.md (the index re-use path checks that the solute is a member, '
+    'as the rebuild path does); on the tree as found the check reports negative-flow:sle:T and disagree:sle.setup',
+    'packages: NaCl and Glucose carry N_solutes 2 and 1 (so `_heavy_solutes`, `_F_mol_heavy` and the sites they guard are live); '
+    'package F has un-locked Propane and CO2 for the single-component branch at and above Tc; LLE single_loop=True is drawn (sl=1)',
+    'unexpected-raise is not reported for a correlation evaluated outside its range or a solver that did not converge '
+    '(message-based: extrapolat*, could not be solved, tolerance reached, ...): such calls do not return normally and are '
+    'outside the quantifier; the numba cache race (ReferenceError) can still occur when several processes share '
+    'NUMBA_CACHE_DIR: it is excused and counted (`raise:...:ReferenceError`)',
+    'the conversion Stream -> MultiStream / phase re-labelling done by the `.vle/.lle/.sle` property access happens before the '
+    '`before` snapshot (C12\'s subject): it is not judged here',
     'LLE remembered-coefficients branch: the adapter records the RAW Rachford-Rice root inside phase_fraction (both root '
     'functions of binary_phase_fraction are wrapped) and the model applies as_valid_fraction itself (path cacheRaw, theorem '
     'lle_cached_nonneg_for_every_root); the generator draws binary pairs whose composition drifts across the edge of the '
@@ -97,6 +110,8 @@ TRUSTED = ['Lean 4.33 kernel', 'harness/props/c03.py (instrumentation of solver 
 
 tmo = None
 np = None
+# dissociating non-volatiles: `_heavy_solutes` non-zero, so that `_F_mol_heavy` and every site guarded by it are exercised
+N_SOLUTES = {'NaCl': 2, 'Glucose': 1}
 PKG = {}          # name -> dict(thermo, ids, light, heavy, vle, lle, hs, mw)
 ROWS = 'glLs'     # order of rows on the protocol
 
@@ -636,10 +651,15 @@ def setup():
     # NumPy's error state is left as thermosteam's import leaves it (divide/invalid raise)
     C = tmo.Chemical
     def pkg(name, items):
+        for it in items:
+            if not isinstance(it, str) and it.ID in N_SOLUTES: it.N_solutes = N_SOLUTES[it.ID]
         chems = tmo.Chemicals(items)
         th = tmo.Thermo(chems, cache=True) if False else tmo.Thermo(chems)
         chems = th.chemicals
+        decl = {it.ID: it.locked_state for it in items if not isinstance(it, str)}
         PKG[name] = dict(thermo=th, ids=list(chems.IDs), light=list(chems._light_indices),
+                         decl_light=[i for i, ID in enumerate(chems.IDs) if decl.get(ID) == 'g'],
+                         decl_heavy=[i for i, ID in enumerate(chems.IDs) if decl.get(ID) in ('l', 's')],
                          heavy=list(chems._heavy_indices), vle=list(chems._vle_index), lle=list(chems._lle_index),
                          hs=[float(x) for x in chems._heavy_solutes], mw=[float(x) for x in chems.MW])
     pkg('A', ['Water', 'Ethanol', 'Methanol', 'Propanol'])
@@ -647,6 +667,7 @@ def setup():
     pkg('C', ['Water', 'Ethanol', 'Octane', C('N2', phase='g'), C('CO2', phase='g'),
               C('Glucose', phase='l', default=True), C('NaCl', phase='s', default=True)])
     pkg('D', ['Water', 'Tetradecanol', 'Ethanol', 'Glycerol', C('O2', phase='g')])
+    pkg('F', ['Propane', 'CO2', 'Water', 'Ethanol'])      # un-locked Propane (Tc 370 K) and CO2 (Tc 304 K): super-critical branch
     pkg('E', ['EthylLactate', 'LacticAcid', 'Water', 'Ethanol'])      # esterification: reactive-flash histories
     tmo.settings.set_thermo(PKG['A']['thermo'])
     _install()
@@ -709,6 +730,16 @@ EXPECTED_TO_RETURN = {'vle:P-T', 'vle:P-V', 'vle:T-V'}
 EXCUSED_RAISES = (FloatingPointError, ZeroDivisionError, OverflowError, ReferenceError)
 
 
+def _range_error(exc):
+    """a property correlation evaluated outside its range, or a solver that did not converge: such a call does not
+    return normally and is outside the quantifier (e.g. pure Tetradecanol at P just above its critical pressure:
+    'Failed to extrapolate vapor pressure method WAGNER_POLING at T=-741 K')"""
+    msg = str(exc).lower()
+    return isinstance(exc, (RuntimeError, ValueError, ArithmeticError)) and any(
+        k in msg for k in ('extrapolat', 'could not be solved', 'tolerance reached', 'not converge', 'tmin', 'tmax',
+                           'valid', 'out of range', 'domain', 'complex', 'nan', 'infeasible'))
+
+
 def run_ops(ops):
     global _REC
     model_in, outs, failures, tags = [], [], [], []
@@ -735,6 +766,13 @@ def run_ops(ops):
                    f'hs={",".join(fbits(x) for x in pkg["hs"])} vle={",".join(map(str, pkg["vle"]))} '
                    f'lle={",".join(map(str, pkg["lle"]))} mw={",".join(fbits(x) for x in pkg["mw"])}')
             model_in.append(cfg); outs.append('ok')
+            # the DECLARED phase locks (Chemical(..., phase=)) decide what the placement clauses are judged against; the
+            # model is given the lists the code compiled (it mirrors the code), so a mis-classification shows here and
+            # as a placement failure of the real stream
+            if sorted(pkg['light']) != sorted(pkg['decl_light']) or sorted(pkg['heavy']) != sorted(pkg['decl_heavy']):
+                failures.append({'signature': 'misclassified-phase-lock', 'op_index': oi,
+                                 'what': f'package {t[1]}: declared gas-only {pkg["decl_light"]} / liquid-solid-only '
+                                         f'{pkg["decl_heavy"]}, compiled _light_indices {pkg["light"]} / _heavy_indices {pkg["heavy"]}'})
             d = rec.dense()
             model_in.append('state ' + ' '.join(r + '=' + ','.join(fbits(x) for x in d[r]) for r in ROWS))
             outs.append(rec.state_ans())
@@ -849,6 +887,7 @@ def run_ops(ops):
                 if 'P' in kw: args['P'] = float(kw['P'])
                 if 'top' in kw: args['top_chemical'] = kw['top']
                 if kw.get('cache') == '0': args['use_cache'] = False
+                if kw.get('sl') == '1': args['single_loop'] = True       # public option: one pass of the inner loop
                 eqo = s.lle
                 eqo.method = {'de': 'differential evolution', 'shgo': 'shgo'}.get(kw.get('method'), eqo.default_method)
                 if 'ctol' in kw: eqo.composition_cache_tolerance = float(kw['ctol'])      # public option of LLE
@@ -933,10 +972,12 @@ def run_ops(ops):
         nonneg = not neg
         light_ok = heavy_ok = True
         if op in ('vle', 'vlle'):
-            light_ok = all(after['l'][i] == 0.0 for i in pkg['light'])
-            heavy_ok = all(after['g'][i] == 0.0 for i in pkg['heavy'])
+            # judged against the DECLARED phase locks, not against the lists the code compiled; Stream.vlle pools the second
+            # liquid first, so a gas-only chemical must be absent from `L` too
+            light_ok = all(after['l'][i] == 0.0 and (op != 'vlle' or after['L'][i] == 0.0) for i in pkg['decl_light'])
+            heavy_ok = all(after['g'][i] == 0.0 for i in pkg['decl_heavy'])
         flags = f'cons={int(cons)} nonneg={int(nonneg)} light={int(light_ok)} heavy={int(heavy_ok)}'
-        spec = op + ':' + '-'.join(sorted(k for k in kw if k not in ('solute', 'top', 'cache', 'method', 'ctol')))
+        spec = op + ':' + '-'.join(sorted(k for k in kw if k not in ('solute', 'top', 'cache', 'method', 'ctol', 'sl')))
         pre_ok = all(before[r][i] >= -tol_i[i] for r in ROWS for i in range(nchem))
         if not pre_ok:
             # the property quantifies over non-negative flows; a reactive flash (excluded) can leave a negative
@@ -959,7 +1000,7 @@ def run_ops(ops):
             if judged: tags.append('judged-after-raise')
             # the domain "returns normally" must not shrink silently: these specification pairs have no documented
             # way to raise (NoEquilibrium is handled inside VLE.__call__), numerical overflow apart
-            if op == 'vle' and spec in EXPECTED_TO_RETURN and not isinstance(exc, EXCUSED_RAISES):
+            if op == 'vle' and spec in EXPECTED_TO_RETURN and not isinstance(exc, EXCUSED_RAISES) and not _range_error(exc):
                 failures.append({'signature': f'unexpected-raise:{spec}:{type(exc).__name__}', 'op_index': oi,
                                  'what': f'`{line}` raised {type(exc).__name__}: {str(exc)[:120]} (this specification pair '
                                          f'returns normally on the tree the check was validated on)'})
@@ -976,11 +1017,11 @@ def run_ops(ops):
                                  'what': f'`{line}`: flow of {pkg["ids"][i_]} in phase {r_!r} is {after[r_][i_]!r} '
                                          f'(tolerance -{tol_i[i_]:.3g} = 1e-12 of its total {tb[i_]!r})'})
             if not light_ok:
-                bad = [pkg['ids'][i] for i in pkg['light'] if after['l'][i] != 0.0]
+                bad = [pkg['ids'][i] for i in pkg['decl_light'] if after['l'][i] != 0.0 or after['L'][i] != 0.0]
                 failures.append({'signature': f'gas-only-in-liquid:{spec}{sfx}', 'op_index': oi,
                                  'what': f'`{line}`: gas-only chemical(s) {bad} left in the liquid phase'})
             if not heavy_ok:
-                bad = [pkg['ids'][i] for i in pkg['heavy'] if after['g'][i] != 0.0]
+                bad = [pkg['ids'][i] for i in pkg['decl_heavy'] if after['g'][i] != 0.0]
                 failures.append({'signature': f'nonvolatile-in-gas:{spec}{sfx}', 'op_index': oi,
                                  'what': f'`{line}`: liquid/solid-only chemical(s) {bad} present in the gas phase'})
         model_in.append('end ' + op); outs.append(rec.state_ans(' ' + flags))
@@ -1055,15 +1096,17 @@ PKG_IDS = {
     'C': ['Water', 'Ethanol', 'Octane', 'N2', 'CO2', 'Glucose', 'NaCl'],
     'D': ['Water', 'Tetradecanol', 'Ethanol', 'Glycerol', 'O2'],
     'E': ['EthylLactate', 'LacticAcid', 'Water', 'Ethanol'],
+    'F': ['Propane', 'CO2', 'Water', 'Ethanol'],
 }
-PKG_LIGHT = {'A': [], 'B': [], 'C': [3, 4], 'D': [4], 'E': []}
-PKG_VLE = {'A': [0, 1, 2, 3], 'B': [0, 1, 2, 3, 4], 'C': [0, 1, 2], 'D': [0, 1, 2, 3], 'E': [0, 1, 2, 3]}
+PKG_LIGHT = {'A': [], 'B': [], 'C': [3, 4], 'D': [4], 'E': [], 'F': []}
+PKG_VLE = {'A': [0, 1, 2, 3], 'B': [0, 1, 2, 3, 4], 'C': [0, 1, 2], 'D': [0, 1, 2, 3], 'E': [0, 1, 2, 3], 'F': [0, 1, 2, 3]}
 SUBSETS = {
     'A': [[0, 1, 2, 3], [0, 1], [0], [1, 2, 3], [2, 3]],
     'B': [[0, 1, 2, 3, 4], [0, 2], [0, 1, 2], [2, 3], [0, 4], [0, 1]],
     'C': [[0, 1, 2, 3, 4, 5, 6], [0, 1, 3, 4], [0, 1, 5, 6], [3, 5, 6], [0, 3], [1, 5], [0, 6], [0, 1, 2], [3, 4], [0, 1, 2, 3, 5]],
     'D': [[0, 1, 2, 3, 4], [0, 1], [1], [0, 1, 4], [1, 2], [0, 2, 3]],
     'E': [[0, 1, 2, 3], [1, 2, 3], [2, 3]],
+    'F': [[0, 1, 2, 3], [0], [1], [0, 2], [1, 3]],
 }
 
 
@@ -1117,8 +1160,8 @@ def _vle_op(rng, kind, z0=None):
         return min(0.999, max(0.001, c))
     return {
         'TP': f'vle T={T} P={P}', 'PV': f'vle P={P} V={V}', 'TV': f'vle T={T} V={V}',
-        'PH': f'vle P={P} Hq={q}', 'PS': f'vle P={P} Sq={q}', 'TH': f'vle T={T} Hq={min(0.98, max(0.02, abs(q)))}',
-        'TS': f'vle T={T} Sq={min(0.98, max(0.02, abs(q)))}',
+        'PH': f'vle P={P} Hq={q}', 'PS': f'vle P={P} Sq={q}', 'TH': f'vle T={T} Hq={q if rng.random() < 0.3 else min(0.98, max(0.02, abs(q)))}',
+        'TS': f'vle T={T} Sq={q if rng.random() < 0.3 else min(0.98, max(0.02, abs(q)))}',
         'Tx': f'vle T={T} x={near(z0)!r}', 'Px': f'vle P={P} x={near(z0)!r}',
         'Ty': f'vle T={T} y={near(z0)!r}', 'Py': f'vle P={P} y={near(z0)!r}',
     }[kind]
@@ -1134,12 +1177,13 @@ def _lle_ops(rng, pkgname, k=1):
         top = rng.choice([None, None] + PKG_IDS[pkgname])
         Tj = T if j == 0 else round(T + rng.choice([0.0, 1e-4, -1e-4, 5e-4, -5.0, 2.0]), 4)
         ops.append(f'lle T={Tj}' + (f' P={rng.choice([101325.0, 2e5])}' if rng.random() < 0.3 else '')
-                   + (f' top={top}' if top else '') + (' cache=0' if rng.random() < 0.15 else ''))
+                   + (f' top={top}' if top else '') + (' cache=0' if rng.random() < 0.15 else '')
+                   + (' sl=1' if rng.random() < 0.25 else ''))
     return ops
 
 
 def _sle_op(rng, pkgname, only_solubility=False):   # (second argument kept for callers; unused since a9c296c)
-    solute = 'Tetradecanol' if pkgname == 'D' and rng.random() < 0.9 else rng.choice(PKG_IDS[pkgname])
+    solute = 'Tetradecanol' if pkgname == 'D' and rng.random() < 0.8 else rng.choice(PKG_IDS[pkgname])
     r = rng.random()
     if r < 0.55: return f'sle solute={solute} T={round(rng.uniform(270, 340), 2)}'
     if r < 0.85:
@@ -1166,7 +1210,7 @@ def grid_cases(rng):
     """every (package, subset) x initial distribution x operation kind at least once"""
     out = []
     modes = ['first', 'last', 'alternate', 'random']
-    for pkgname in 'ABCDE':
+    for pkgname in 'ABCDEF':
         for si, subset in enumerate(SUBSETS[pkgname]):
             nvol = len([i for i in subset if i in PKG_VLE[pkgname]])
             for ki, kind in enumerate(VLE_KINDS):
@@ -1189,7 +1233,7 @@ def grid_cases(rng):
 
 
 def random_case(rng):
-    pkgname = rng.choice('AABBCCCDE')
+    pkgname = rng.choice('AABBCCCDEF')
     n = len(PKG_IDS[pkgname])
     subset = [i for i in range(n) if rng.random() < 0.6] or [rng.randrange(n)]
     fam = rng.choice(['vle'] * 6 + ['lle', 'lle', 'sle', 'vlle', 'mixed'])
@@ -1220,7 +1264,7 @@ def _edit(rng, pkgname, phases, present):
     """an edit between two calls of a history; most keep the set of present chemicals (so `_setup` re-uses its
     index) and put material into the phase where the previous call cannot have left it"""
     n = len(PKG_IDS[pkgname])
-    pk = {'A': ([], []), 'B': ([], []), 'C': ([3, 4], [5, 6]), 'D': ([4], []), 'E': ([], [])}[pkgname]
+    pk = {'A': ([], []), 'B': ([], []), 'C': ([3, 4], [5, 6]), 'D': ([4], []), 'E': ([], []), 'F': ([], [])}[pkgname]
     light = [i for i in pk[0] if i in present]; heavy = [i for i in pk[1] if i in present]
     vol = [i for i in PKG_VLE[pkgname] if i in present]
     r = rng.random()
@@ -1316,7 +1360,7 @@ def history_case(rng, fam=None, pkgname=None):
     fam = fam or rng.choice(['vle'] * 5 + ['lle', 'lle', 'sle', 'sle', 'vlle', 'mixed', 'mixed'])
     if pkgname is None and fam in ('vle', 'mixed') and rng.random() < 0.25: return reactive_history(rng)
     if pkgname is None and fam == 'lle' and rng.random() < 0.5: return envelope_history(rng)
-    pkgname = pkgname or (rng.choice('DDDC') if fam == 'sle' else rng.choice('ABBCCCDE'))
+    pkgname = pkgname or (rng.choice('DDDCFF') if fam == 'sle' else rng.choice('ABBCCCDEF'))
     n = len(PKG_IDS[pkgname])
     subset = [i for i in range(n) if rng.random() < 0.7] or [rng.randrange(n)]
     if fam == 'sle' and pkgname == 'D' and 1 not in subset: subset.append(1)
@@ -1413,11 +1457,32 @@ def grid_branches(rng, tier):
                f'sle solute=Tetradecanol T={round(rng.uniform(314, 340), 2)}', f'sle solute=Tetradecanol Hm={round(rng.uniform(0.05, 0.95), 3)}',
                f'sle solute=Tetradecanol Hm={rng.choice([-0.3, 1.4])}', f'sle solute=Tetradecanol T={round(rng.uniform(280, 311), 2)}']
         out.append(Case(ops, {'grid': 'sle-pure'}))
+    # the solute changes between calls on one SLE object (same chemicals present, so `_setup` re-uses its index), including
+    # a solute that is not LLE-capable and therefore not a member of that index (CO2: no UNIFAC groups)
+    for k in range(8):
+        rows = {'l': [0.0] * 4, 's': [0.0] * 4}
+        for i in (0, 2, 3):
+            if i == 0 or rng.random() < 0.7: rows['l'][i] = f(10 ** rng.uniform(-1, 1))
+        rows['l'][1] = f(10 ** rng.uniform(-1, 2.5)); rows['s'][1] = f(10 ** rng.uniform(-2, 1))
+        first = rng.choice(['Propane', 'Propane', 'Water'])
+        ops = [f'new F multi ls 250.0 101325.0 {_fmt_rows(rows)}', f'sle solute={first} T={round(rng.uniform(200, 260), 2)}',
+               f'sle solute=CO2 T={round(rng.uniform(180, 230), 2)}', f'sle solute={first} T={round(rng.uniform(200, 260), 2)}',
+               f'sle solute=CO2 T={round(rng.uniform(180, 230), 2)}']
+        out.append(Case(ops, {'grid': 'sle-solute-change'}))
     # optimiser variants: LLE by differential evolution (seeded by the library) -- same write-back, other solver
     for k in range(3 if tier == 'thorough' else 1):
         new, _ = _new(rng, 'B', [0, 1, 2, 3] if k else [0, 2], 'lL', 'random')
         out.append(Case([new, f'lle T={round(rng.uniform(300, 340), 2)} method=de cache=0',
                          f'lle T={round(rng.uniform(300, 340), 2)} method=de cache=0 top=Octane'], {'grid': 'lle-de'}))
+    # single volatile chemical at / above its critical temperature (`_set_thermal_condition_chemical`: T >= Tc), and below
+    for i, Tc in ((0, 369.89), (1, 304.13)):
+        for T in (Tc + 30, Tc + 0.5, Tc - 20):
+            rows = {'g': [0.0] * 4, 'l': [0.0] * 4}
+            rows[rng.choice('gl')][i] = f(10 ** rng.uniform(-1, 2))
+            if rng.random() < 0.5: rows['g' if rows['l'][i] else 'l'][i] = f(10 ** rng.uniform(-1, 1))
+            out.append(Case([f'new F multi gl 300.0 101325.0 {_fmt_rows(rows)}',
+                             f'vle T={round(T, 2)} P={f(10 ** rng.uniform(5, 6.6))}', f'vle T={round(T, 2)} P=101325.0',
+                             f'vle T={round(T + 40, 2)} P={f(10 ** rng.uniform(5, 6.6))}'], {'grid': 'super-critical'}))
     if tier == 'thorough':
         # VLE by shgo: `_solve_v` stores the optimiser's result WITHOUT the clip (slow: seconds per call)
         for k in range(2):
@@ -1477,6 +1542,6 @@ def extra_evidence(executed, model_outs):
             'equilibrium_calls': calls,
             'hypothesis_monitors_unmet': unmet,
             'model_branches': branches,
-            'oracle_tolerances': {'totals': 'rtol 1e-9, atol 1e-12*max(1,total flow)',
-                                  'min_flow': '>= -1e-12*max(1,total flow)',
-                                  'placement': 'exact zeros'}}
+            'oracle_tolerances': {'totals': 'per chemical: rtol 1e-9 of its own total, exact when absent',
+                                  'min_flow': 'per chemical: >= -1e-12 * (its own total before the call)',
+                                  'placement': 'exact zeros, judged against the declared phase locks'}}
